@@ -107,9 +107,28 @@ func selectiveProbeToken(id int, t token.Type) bool {
 	return (m&1 != 0 && t == token.LET) || (m&2 != 0 && t == token.RETURN) || (m&4 != 0 && t == token.FUNCTION)
 }
 
+// nestedSources: what the "b" interceptors parse with a SECOND parser built from the same builder
+// in the middle of the observed parse (an include-style plugin). Parsers are isolated (C14) and
+// the interceptor continues with next(), so the model treats "b" as a pass-through; everything
+// the nested parser's own interceptors log is discarded.
+var nestedSources = []string{"function g() { { let n = 1; } return n }", "{ { { n; } } }", "let f = function () { return function () { { n } } }", "n"}
+
 // buildParser constructs the real parser for a case; interceptors log into events.
 func buildParser(c pcase, viaInstall bool) built {
 	events := &[]event{}
+	nested, nestedCount := false, 0
+	var pbOuter *parser.Builder
+	runNested := func() {
+		if nested || pbOuter == nil {
+			return
+		}
+		nested = true
+		n := len(*events)
+		pbOuter.Build(nestedSources[nestedCount%len(nestedSources)]).ParseProgram()
+		nestedCount++
+		*events = (*events)[:n]
+		nested = false
+	}
 	lb := lexer.NewBuilder()
 	for _, ti := range c.ti {
 		ti := ti
@@ -149,6 +168,7 @@ func buildParser(c pcase, viaInstall bool) built {
 		}
 	}
 	pb := parser.NewBuilder(lb)
+	pbOuter = pb
 	install := func(f func(*parser.Builder)) {
 		if viaInstall {
 			pb.Install(f)
@@ -164,6 +184,11 @@ func buildParser(c pcase, viaInstall bool) built {
 			switch {
 			case si == "p":
 				pb.UseStatementInterceptor(func(p *parser.Parser, next func() ast.Statement) ast.Statement { return next() })
+			case si == "b": // nested build from the same builder, then pass through
+				pb.UseStatementInterceptor(func(p *parser.Parser, next func() ast.Statement) ast.Statement {
+					runNested()
+					return next()
+				})
 			case strings.HasPrefix(si, "q"):
 				id, _ := strconv.Atoi(si[1:])
 				pb.UseStatementInterceptor(func(p *parser.Parser, next func() ast.Statement) ast.Statement {
@@ -187,6 +212,11 @@ func buildParser(c pcase, viaInstall bool) built {
 			switch {
 			case ei == "p":
 				pb.UseExpressionInterceptor(func(p *parser.Parser, next func() ast.Expression) ast.Expression { return next() })
+			case ei == "b":
+				pb.UseExpressionInterceptor(func(p *parser.Parser, next func() ast.Expression) ast.Expression {
+					runNested()
+					return next()
+				})
 			case ei == "r":
 				pb.UseExpressionInterceptor(func(p *parser.Parser, next func() ast.Expression) ast.Expression {
 					left := p.ParsePrefixExpression()
